@@ -104,16 +104,16 @@ func (c *Container) Add(service *WebService) *Container {
 
 	// If not registered on root then add specific mapping
 	if !c.isRegisteredOnRoot {
-		c.isRegisteredOnRoot = c.addHandler(service, c.ServeMux)
+		c.isRegisteredOnRoot = c.addHandler(service, c.ServeMux, c.webServices)
 	}
 	c.webServices = append(c.webServices, service)
 	return c
 }
 
-// addHandler may set a new HandleFunc for the serveMux
+// addHandler may set a new HandleFunc for the serveMux ; registered are the WebServices that have been added to it before.
 // this function must run inside the critical region protected by the webServicesLock.
 // returns true if the function was registered on root ("/")
-func (c *Container) addHandler(service *WebService, serveMux *http.ServeMux) bool {
+func (c *Container) addHandler(service *WebService, serveMux *http.ServeMux, registered []*WebService) bool {
 	pattern := fixedPrefixPath(service.RootPath())
 	// check if root path registration is needed
 	if "/" == pattern || "" == pattern {
@@ -122,7 +122,7 @@ func (c *Container) addHandler(service *WebService, serveMux *http.ServeMux) boo
 	}
 	// detect if registration already exists
 	alreadyMapped := false
-	for _, each := range c.webServices {
+	for _, each := range registered {
 		if each.RootPath() == service.RootPath() {
 			alreadyMapped = true
 			break
@@ -153,7 +153,7 @@ func (c *Container) Remove(ws *WebService) error {
 		if each.rootPath != ws.rootPath {
 			// If not registered on root then add specific mapping
 			if !newIsRegisteredOnRoot {
-				newIsRegisteredOnRoot = c.addHandler(each, newServeMux)
+				newIsRegisteredOnRoot = c.addHandler(each, newServeMux, newServices)
 			}
 			newServices = append(newServices, each)
 		}
